@@ -914,6 +914,10 @@ pub fn run(run: &Run) {
     let max_set = if thorough { 4 } else { 3 };
     let pool_sizes: Vec<usize> = if thorough { vec![1, 2, 4, 16] } else { vec![1, 16] };
     let pools: Vec<rayon::ThreadPool> = pool_sizes.iter().map(|n| rayon::ThreadPoolBuilder::new().num_threads(*n).build().unwrap()).collect();
+    // first of all, while this process has validated nothing: a bounded memo that fills up during the phases below would
+    // no longer take the entries that matter here
+    process_history(run, thorough);
+    println!("  [phase] process history done at {:.1}s", run.elapsed());
     let bases = base_states(run, thorough);
     let mut cfg = AlphaCfg::base();
     cfg.swaps = true;
@@ -956,10 +960,8 @@ pub fn run(run: &Run) {
     println!("  [phase] doscmint corner done at {:.1}s", run.elapsed());
     large_batch_family(run, thorough);
     println!("  [phase] large batches done at {:.1}s", run.elapsed());
-    process_history(run, thorough);
     contended_sets_under_every_schedule(run, thorough);
     println!("  [phase] store-seam schedules done at {:.1}s", run.elapsed());
-    println!("  [phase] process history done at {:.1}s", run.elapsed());
     // the one lock-protected structure that validation threads share (the DOSC inflator table): every interleaving, by loom
     crate::loomrun::inflator_interleavings(run, "C03");
     repeatability_sampling(run, thorough);
